@@ -313,6 +313,26 @@ package openflow13
 //@   own noalias
 //@   ensures err == nil && message != nil ==> wfl(message)
 
+// C04: the parser entry point yields the kind the header's type byte names (OpenFlow 1.3.5 section 7.1, enum ofp_type)
+//@ also Parse(b) (message, err) [C04]
+//@   ensures[C04] (err == nil && u8(b, 1) == 0) ==> typeis(message, *common.Hello)
+//@   ensures[C04] (err == nil && u8(b, 1) == 1 && be16(b, 8) != 65535) ==> typeis(message, *ErrorMsg)
+//@   ensures[C04] (err == nil && u8(b, 1) == 1 && be16(b, 8) == 65535) ==> typeis(message, *VendorError)
+//@   ensures[C04] (err == nil && (u8(b, 1) == 2 || u8(b, 1) == 3 || u8(b, 1) == 5 || u8(b, 1) == 7 || u8(b, 1) == 20 || u8(b, 1) == 21)) ==> typeis(message, *common.Header)
+//@   ensures[C04] (err == nil && u8(b, 1) == 4) ==> typeis(message, *VendorHeader)
+//@   ensures[C04] (err == nil && u8(b, 1) == 6) ==> typeis(message, *SwitchFeatures)
+//@   ensures[C04] (err == nil && (u8(b, 1) == 8 || u8(b, 1) == 9)) ==> typeis(message, *SwitchConfig)
+//@   ensures[C04] (err == nil && u8(b, 1) == 10) ==> typeis(message, *PacketIn)
+//@   ensures[C04] (err == nil && u8(b, 1) == 11) ==> typeis(message, *FlowRemoved)
+//@   ensures[C04] (err == nil && u8(b, 1) == 12) ==> typeis(message, *PortStatus)
+//@   ensures[C04] (err == nil && u8(b, 1) == 13) ==> typeis(message, *PacketOut)
+//@   ensures[C04] (err == nil && u8(b, 1) == 14) ==> typeis(message, *FlowMod)
+//@   ensures[C04] (err == nil && u8(b, 1) == 15) ==> typeis(message, *GroupMod)
+//@   ensures[C04] (err == nil && u8(b, 1) == 16) ==> typeis(message, *PortMod)
+//@   ensures[C04] (err == nil && u8(b, 1) == 18) ==> typeis(message, *MultipartRequest)
+//@   ensures[C04] (err == nil && u8(b, 1) == 19) ==> typeis(message, *MultipartReply)
+//@   ensures[C04] len(b) < 8 ==> err != nil
+
 //@ func decodeVendorData(experimenterType, data) (msg, err) [C07 C12]
 //@   allocbound max(4096, len(data))
 //@   own noalias
